@@ -127,6 +127,22 @@ def run(repo, scratch, krows, seed, tier):
             tail = '\n'.join(l for l in out.splitlines() if 'error' in l)[:3000]
             raise Undecided('the overlaid crate does not compile under Kani (anchor renamed / signature changed?):\n' + tail)
         parsed = parse_output(out, harnesses)
+        # A harness without a verdict, or FAILED without a failed check (a solver process that died: out of memory under `-j`, machine under
+        # load), is run ONCE more on its own before the layer gives up: transient resource trouble must not make a check undecided.
+        for h in harnesses:
+            pr = parsed.get(h)
+            if pr is None or pr['status'] is None or (pr['status'] == 'FAILED' and not pr['failed_checks']):
+                cmd1 = ['cargo', 'kani', '--default-unwind', '3', '--output-format', 'terse', '-Z', 'function-contracts', '-Z', 'stubbing', '--harness', h]
+                if feat:
+                    cmd1 += ['--features', feat]
+                try:
+                    p1 = run_group(cmd1, 1800, cwd=repo, env=env, preexec_fn=_limit)
+                    again = parse_output(p1.stdout + '\n' + p1.stderr, [h])
+                    if again.get(h) and again[h]['status'] is not None:
+                        parsed[h] = again[h]
+                        parsed[h]['rerun_alone'] = True
+                except subprocess.TimeoutExpired:
+                    pass
         for rid, r in items:
             h = r['harness']
             pr = parsed.get(h)
